@@ -29,6 +29,7 @@ type limitsRec struct {
 	Hash   string              `json:"hash"`
 	Size   int                 `json:"size"`
 	SizeOf string              `json:"sizeof"`
+	Create bool                `json:"create"`
 	Fields map[string]shapeRec `json:"fields"`
 	Want   string              `json:"want"`
 	VClass string              `json:"vclass"`
@@ -195,6 +196,13 @@ func limitsReplay(raw json.RawMessage) hx.Result {
 	}
 	if sk := r.Fields["state_key"]; sk.Cps > 0 {
 		f.StateKey = strp(fieldValue("state_key", sk, ""))
+	}
+	if r.Create {
+		// a create event that carries a room_id member (tolerated where room IDs are domainless)
+		if !specDomainless(r.Ver) || r.Path == "build" {
+			fatalf("create-with-room_id scenario for version %s path %s", r.Ver, r.Path)
+		}
+		f.Type, f.StateKey, f.Sender = "m.room.create", strp(""), creator
 	}
 	body := func(n int) interface{} { return map[string]string{"body": strings.Repeat("x", n)} }
 	f.Content = body(0)
